@@ -96,7 +96,103 @@ CHECKS = [
              'length) cannot hide.',
      'note': 'Trusts the 20-line reference Luhn (self-checked on published numbers). Strings longer than the '
              'exhaustive bound are covered only by the deviation closure.'},
+    {'id': 'C06', 'engine': 'E3-sched', 'level': 'model_checking', 'design_ref': 'DESIGN.md 4/C06',
+     'technique': 'stateless schedule exploration on the real code: all operation-level merges of 4 instances and '
+                  'preemption-bounded line-level interleavings of two real threads under a controlled scheduler; '
+                  'plus exhaustive round-trip enumeration over message-shape sequences',
+     'text': 'Round trip over every sequence of length 1..3 of 8 message shapes and long cyclic files in 4 codecs, '
+             'both formats, packaged and custom configuration. Isolation: all 2520 merges of two operations each of 2 '
+             'writers + 2 readers, switch-bounded merges of three operations each, and every placement of <=1 (quick) '
+             '/ <=2 (thorough) preemptions at cardutil line events for the pairs next||next, write||write, write||next, '
+             'dumps||loads; every instance must observe exactly what it observes in a solo run.',
+     'note': 'Line granularity, not bytecode granularity; two threads; preemption bound 1 (quick) / 2 (thorough).'},
+    {'id': 'C07', 'engine': 'E4-faults', 'level': 'fault_enumeration', 'design_ref': 'DESIGN.md 4/C07',
+     'technique': 'exhaustive fault enumeration (0, 1, 2 byte deviations, numeral closure, short-string closure) '
+                  'against the real decoder and readers under a CPU-time watchdog',
+     'text': 'Corpus of reference-encoded messages and files x every truncation, every byte value at every structural '
+             'position (all positions in thorough), insert/delete, pairs of structural positions, every string over an '
+             '11-value alphabet in every length numeral, and every string of length <=3 (quick) / <=5 (thorough) over 8 '
+             'symbols after a single-bit header for every configured bit: loads must return a dict or raise the '
+             'library error, readers must stop or raise MciIpmDataError, and the watchdog must never fire.',
+     'note': 'Mutation depth above 2 (3 inside one numeral) is not explored; random byte strings are not sampled.'},
+    {'id': 'C08', 'engine': 'E4-faults', 'level': 'fault_enumeration', 'design_ref': 'DESIGN.md 4/C08',
+     'technique': 'exhaustive fault enumeration near the valid language judged by a re-tiling oracle and an independent '
+                  'strict reference decoder',
+     'text': 'C07 mutation sets plus zero-length variable elements, bitmap bit flips, extensions, and the closure of '
+             'short strings after one- and two-bit headers. Whenever loads returns, the message is re-tiled from the '
+             'returned dict (prefix + declared bytes, value = own bytes, no overlap / gap / leftover, no negative '
+             'length); whenever the strict reference accepts, loads must accept with the same dict.',
+     'note': 'Numerals that are not plain ASCII digits and malformed PDS/ICC content are don\'t-cares for acceptance.'},
+    {'id': 'C10', 'engine': 'E4-faults', 'level': 'fault_enumeration', 'design_ref': 'DESIGN.md 4/C10',
+     'technique': 'exhaustive enumeration of (file size n, faulty position k, fault kind, format, codec) on the real '
+                  'IpmReader',
+     'text': 'Every n<=4 (6 thorough), every k, ten fault kinds incl. framing-level ones, plus every structural byte of '
+             'record k x a 10-value alphabet in 3-record files: records before k delivered unchanged, then '
+             'MciIpmDataError with record_number == k and the raw bytes of record k; operator message names record k.',
+     'note': 'Good records are reference-encoded; bad ones are single-point corruptions.'},
+    {'id': 'C12', 'engine': 'E2-choice', 'level': 'exploration', 'design_ref': 'DESIGN.md 4/C12',
+     'technique': 'exhaustive boundary sweep of PDS value-length pairs around the 999-character carrier cap on the '
+                  'real encoder/decoder',
+     'text': 'All 20k (l1,l2) pairs whose running carrier length falls in 985..1005, three-tag sweeps of the second '
+             'boundary, zero-length values, header look-alike values, 1..5 full carriers, tag extremes, packaged and '
+             'generated carrier placement. Carriers read independently from the dumps output must concatenate to the '
+             'ascending tag4 len3 value stream, never exceed 999, never split a sub-element; loads returns the same set.',
+     'note': 'Greedy packing is not required (the statement does not require it); sets that fit greedily must encode.'},
+    {'id': 'C13', 'engine': 'E2-choice', 'level': 'exploration', 'design_ref': 'DESIGN.md 4/C13',
+     'technique': 'exhaustive enumeration over PIN length x PAN length with 1- and 2-position digit deviations, '
+                  'compared with independent PIN-block, DES and AES references',
+     'text': 'PIN length 4..12 x PAN length 13..19 crossed fully, four digit backgrounds, every position x every digit, '
+             'pairs of positions, six fill values incl. none supplied (random source replaced by a counter), TDES '
+             'double/triple and AES-128/192/256 keys: clear blocks equal the ISO 9564 construction, from_bytes returns '
+             'the PIN, ciphertexts equal from-scratch FIPS 46-3 / FIPS 197 references and decrypt to the PIN.',
+     'note': 'Key / PIN / PAN value spaces are covered over the stated alphabets and deviation bound only.'},
+    {'id': 'C14', 'engine': 'E2-choice', 'level': 'exploration', 'design_ref': 'DESIGN.md 4/C14',
+     'technique': 'exhaustive enumeration over PIN length x PAN length x key index plus constructed decimalisation '
+                  'vectors, compared with a from-scratch DES reference',
+     'text': 'PVV for every PIN length 4..12 x PAN length 13..19 x key index 0..9 under 8/16/24-byte keys, 1-position '
+             'deviations, and vectors constructed (by decrypting target ciphertexts) so that the second decimalisation '
+             'scan supplies 0,1,2,3,4 digits; every ordered component list of length 1..3 over 5 components, encrypted '
+             'zone keys under 3 master keys, KCV lengths 4/6/16.',
+     'note': 'Components are double-length keys.'},
+    {'id': 'C16', 'engine': 'E2-choice', 'level': 'exploration', 'design_ref': 'DESIGN.md 4/C16',
+     'technique': 'exhaustive enumeration of mask() inputs and of PAN / PAN-PREFIX processor placements on every '
+                  'variable-length element',
+     'text': 'mask() for every length 10..40 x digits/text x every printable mask character; PAN and PAN-PREFIX on '
+             'every LLVAR/LLLVAR element of the packaged and 4 (quick) / 14 (thorough) generated configurations x PAN '
+             'lengths x codecs, alone and between neighbours, via loads and IpmReader: masked shape exact, clear PAN '
+             'nowhere in the returned dict.',
+     'note': 'Non-disclosure judged from 11 characters up (a 10-character PAN has no middle).'},
+    {'id': 'C17', 'engine': 'E2-choice', 'level': 'exploration', 'design_ref': 'DESIGN.md 4/C17',
+     'technique': 'exhaustive enumeration of writer-produced files (first-record shape x codec x format x every block '
+                  'count) and of the invalid classes with boundary values',
+     'text': 'Files from the real IpmWriter for 46 first-record shapes x 6 codecs x VBS/1014 x every block count '
+             '1..10 (14 thorough): valid, right encoding family, blocked recognised, unblocked not mistaken; lengths '
+             '0..39, first length around the maximum under three configured maxima, each of the 83 unconfigured bits: '
+             'invalid with a reason.',
+     'note': 'Encoding family judged semantically (reported codec must decode the MTI digits).'},
+    {'id': 'C18', 'engine': 'E2-choice', 'level': 'exploration', 'design_ref': 'DESIGN.md 4/C18',
+     'technique': 'exhaustive enumeration of synthetic extract files (index assignments, row multisets and all their '
+                  'interleavings, layouts, representations) against independent slicing',
+     'text': 'All 120 assignments of look-alike sub-ids to the four configured tables, every multiset of 0..2 rows for '
+             'every ordered pair of tables in EVERY interleaving, cyclic mixes with unconfigured tables, generated '
+             'layouts, compressed and expanded, latin_1/cp500, VBS/1014, also through the CSV tool; refusal cases.',
+     'note': 'Row layout taken from the reader documentation / configuration comments.'},
+    {'id': 'C19', 'engine': 'E2-choice', 'level': 'exploration', 'design_ref': 'DESIGN.md 4/C19',
+     'technique': 'exhaustive enumeration over files x ordered codec pairs x formats^2 x tools x entry points, outputs '
+                  'read by the reference models, byte-exact return trip',
+     'text': 'Writer-produced IPM files (7 shapes alone, all pairs, 5- and 40-record mixes) and arbitrary-byte parameter '
+             'files through mci_ipm_encode, mideu convert, mci_ipm_param_encode, paramconv, every ordered pair of '
+             '{latin_1, cp500, cp037}, {vbs,1014}^2, function / cli_run / argv entry points with and without -o.',
+     'note': 'Records compared through vf/ref, not through the library readers.'},
+    {'id': 'C20', 'engine': 'E2-choice', 'level': 'exploration', 'design_ref': 'DESIGN.md 4/C20',
+     'technique': 'exhaustive enumeration of CSV tables (column subsets x rows x value/metacharacter variants x codec x '
+                  'format x entry point) through the real tools',
+     'text': 'MTI + each single column x 21 value variants, MTI + every pair of columns, all columns (PDS columns or '
+             'DE48), rows 1..3 with omitted cells, CSV metacharacters, three codecs, both formats, function and cli_run '
+             'entry points: same rows, same order, every supplied cell textually equal.',
+     'note': 'Fixed text at exact width, canonical decimals, complete ISO stamps.'},
 ]
 
+CHECKS.sort(key=lambda c: c['id'])
 NOT_APPLICABLE = [{'property_id': 'C%02d' % i, 'reason': _PENDING}
                   for i in range(1, 21) if 'C%02d' % i not in {c['id'] for c in CHECKS}]
